@@ -564,4 +564,6 @@ def run(src, out):
     acqgen.run(src, out, hdr)
     import extragen
     extragen.run(src, out, hdr)
+    import extragen2
+    extragen2.run(src, out, hdr)
     return hdr
